@@ -55,24 +55,43 @@ def _d10a(case, observed, finding):
 MATCHERS = {'bad_empty_entry_at_piece_boundary': _d10a}
 
 
-def _make(wd, c):
+def _apply_state(c, files, top, i):
+    f, st = files[i], c['disk'][i]
+    p = os.path.join(top, *f['path'])
+    if st == 'missing':
+        os.unlink(p)
+    elif st == 'unreadable':
+        pass            # present with the right size; open() will be made to fail for it
+    elif st != 'ok':
+        good = content.file_bytes(c['cseed'], i, f['size'])
+        n = int(st)
+        data = (good + content.file_bytes(c['cseed'] + 1, i, max(0, n - len(good))))[:n]
+        with open(p, 'wb') as fh:
+            fh.write(data)
+
+
+def late_from(c):
+    """index of the first file the reader has not looked at when it yields its first item (None: no item is yielded
+    before the last file is opened, or one of the files it has looked at is bad)"""
+    pos = 0
+    for i, s_ in enumerate(c['sizes']):
+        if c['disk'][i] != 'ok':
+            return None
+        pos += s_
+        if pos >= c['L']:
+            return i + 1 if i + 1 < len(c['sizes']) else None
+    return None
+
+
+def _make(wd, c, defer=0):
+    """the tree in the state c['disk']; with defer = m > 0 the files m, m+1, ... are left intact (see c['late'])"""
     files = [{'path': p, 'size': s} for p, s in zip(c['paths'], c['sizes'])]
     top = os.path.join(wd, 'T')
     content.make_tree(wd, 'T', files, seed=c['cseed'])
-    contents = []
-    for i, (f, st) in enumerate(zip(files, c['disk'])):
-        p = os.path.join(top, *f['path'])
-        good = content.file_bytes(c['cseed'], i, f['size'])
-        contents.append(good)
-        if st == 'missing':
-            os.unlink(p)
-        elif st == 'unreadable':
-            pass            # present with the right size; open() will be made to fail for it
-        elif st != 'ok':
-            n = int(st)
-            data = (good + content.file_bytes(c['cseed'] + 1, i, max(0, n - len(good))))[:n]
-            with open(p, 'wb') as fh:
-                fh.write(data)
+    contents = [content.file_bytes(c['cseed'], i, f['size']) for i, f in enumerate(files)]
+    for i in range(len(files)):
+        if not defer or i < defer:
+            _apply_state(c, files, top, i)
     return files, contents, top
 
 
@@ -140,7 +159,10 @@ def _run_chunk(cases):
     for c in cases:
         obs = {}
         try:
-            files, contents, top = _make(wd, c)
+            # c['late']: the damage happens DURING the iteration - the files the reader has not looked at when it yields
+            # its first item are intact until then (theorem C10_late_damage: the items are those of the final disk)
+            m = late_from(c) if c.get('late') else 0
+            files, contents, top = _make(wd, c, defer=m or 0)
             t = content.make_torrent(torf, wd, 'T', files, c['L'])
             index_of = {os.path.join(top, *f['path']): i for i, f in enumerate(files)}
             blocked = {os.path.join(top, *f['path']) for f, st in zip(files, c['disk']) if st == 'unreadable'}
@@ -165,6 +187,10 @@ def _run_chunk(cases):
                         else:
                             es.append([-1, type(e).__name__])
                     items.append((piece, es))
+                    if m and len(items) == 1:
+                        for i in range(m, len(files)):
+                            _apply_state(c, files, top, i)
+                        obs['late_applied'] = m
                 obs['items'] = items
                 if c.get('disk2'):
                     # the disk changes, the SAME stream object iterates again
@@ -308,6 +334,10 @@ def evaluate(ctx, drv, cases):
             r = replies[k]
             case = {x: c[x] for x in ('L', 'sizes', 'disk', 'paths', 'cseed')}
             key = (c['L'], tuple(c['sizes']), tuple(map(str, c['disk'])))
+            if c.get('late'):
+                case['late'] = True
+                key = key + ('late',)
+                ctx.dist['damage-during-the-iteration' + ('' if obs.get('late_applied') else ' (not applied)')] += 1
             if c.get('disk2'):
                 case['disk2'] = c['disk2']
                 key = key + (tuple(map(str, c['disk2'])),)
@@ -362,6 +392,10 @@ def gen_cases(ctx, scale=1.0):
             d2 = second_states(rng, c['sizes'], c['disk'])
             if d2:
                 c['disk2'] = d2
+    # the damage happens while the iteration is under way (after the first item): a quarter of the eligible cases
+    for c in cases:
+        if c.get('kind') != 'corpus' and late_from(c) is not None and rng.random() < 0.25:
+            c['late'] = True
     # a present file of the right size whose open() fails (the only bad file, so it is handled by the main
     # loop like a missing one and reported with a read error)
     for _ in range(int(ctx.n(400, 8000) * scale)):
